@@ -4,7 +4,9 @@
 From Coq Require Import ZArith Reals List Bool.
 From Rubato.Model Require Import Num Reals Base Validate Async Resamplers.
 From Rubato.Gen Require Import FastGen SincGen.
-From Rubato.Proofs Require Import MalformedP FastInR FastOutR FastCtorR GettersR SincInR SincOutR.
+From Rubato.Proofs Require Import MalformedP FastInR FastOutR FastCtorR GettersR SincInR SincOutR FftInOutP FftInR FftOutR.
+From Rubato.Model Require Import Fft.
+From Rubato.Gen Require Import SynchroGen.
 Local Open Scope R_scope.
 
 (** FastFixedIn: a valid call consumes exactly input_frames_next() (= chunk) frames, writes
@@ -74,9 +76,31 @@ Proof.
   exists s', outs. exact E.
 Qed.
 
+(** FFT resamplers: the counts returned by a valid call are exactly what the getters advertised before the call *)
+Theorem C04_fft_in_counts_R : forall unit_fn (s : @fstate CR SR FftFixedIn) wi wo m,
+  xi_wf unit_fn s -> xi_pre s wi wo m = Ok tt ->
+  exists s' outs, @xi_pib CR SR unit_fn s wi wo m =
+                  Ok (s', (xi_input_frames_next (fs_ctl s), @xi_output_frames_next CR (fs_ctl s)), outs).
+Proof. exact xi_counts. Qed.
+
+Theorem C04_fft_out_counts_R : forall unit_fn (s : @fstate CR SR FftFixedOut) wi wo m,
+  xo_wf unit_fn s -> xo_pre s wi wo m = Ok tt ->
+  exists s' outs, @xo_pib CR SR unit_fn s wi wo m =
+                  Ok (s', (xo_input_frames_next (fs_ctl s), xo_output_frames_max (fs_ctl s)), outs).
+Proof. exact xo_counts. Qed.
+
+Theorem C04_fft_inout_counts : forall (C : CNum) (S : SNum C) unit_fn (s : @fstate C S FftFixedInOut) wi wo m,
+  xio_wf unit_fn s -> xio_pre s wi wo m = Ok tt ->
+  exists s' outs, xio_pib unit_fn s wi wo m =
+                  Ok (s', (xio_input_frames_next (fs_ctl s), xio_output_frames_max (fs_ctl s)), outs).
+Proof. intros C S. exact (@xio_counts C S). Qed.
+
 Print Assumptions C04_fast_in_counts_R.
 Print Assumptions C04_fast_out_counts_R.
 Print Assumptions C04_fast_in_next_le_max_R.
 Print Assumptions C04_fast_out_next_le_max_R.
 Print Assumptions C04_sinc_in_counts_R.
 Print Assumptions C04_sinc_out_counts_R.
+Print Assumptions C04_fft_in_counts_R.
+Print Assumptions C04_fft_out_counts_R.
+Print Assumptions C04_fft_inout_counts.
